@@ -8,6 +8,10 @@ streams:
   numeric   numeric literal spellings (boundary values, exponents, hex) in open code and %eval
   strings   quoted literals / string expressions / %str with escapes at every position
   trunc     all prefixes of soup programs
+  progs     statement-level programs (realistic statements, %macro/%do wrappers, BOM, truncation)
+  hexstr    hex string literals: every byte value 00..ff exhaustively, then random multi-pair / malformed ones
+  uws       programs / soup with blanks replaced by non-ASCII or unusual whitespace
+  nl, mb    soup / string / numeric programs mutated with line feeds / multi-byte characters
 """
 import argparse, random, sys
 
@@ -31,7 +35,7 @@ MACRO_FRAGS = [
     " ne ", " and ", " or ", " not ", " in ", " lt ", " ge ", "eq", "and1", "1+1", "1 + 2", "2**3", "a b", "/ ", "/ readonly", "readonly", " / ", "name:", "%lbl:", "%lbl :", "%m:",
     "%let a=b;", "%put x;", "%do i=1 %to 3;", "%end;", "%if 1 %then", "%macro m(a,b=1);", "%mend;", "%m(1,b=2)", "%eval(1+2)", "%str(a;b)", "%nrstr(&a%b)", "%sysfunc(f(1,2),z5.)",
     "%scan(a b,1)", "%substr(abc,1,2)", "a&b.c", "n&i.", "&i.x", "p&q", "pre&i._suf=1", "(a", "(a=", "a=&b", "b=2)", "x&y.z=1,", "%m(a&b.c)", "%m(a b=1)", "%m(a\n=1)",
-    "%m(a/*c*/=1)", "%eval(a\nb +1)", "a\nb ", "x\n y  *", "first\nsecond %then", "%sysevalf(1.5x\n y  * 2)", "a%*c;b", "%*c;", "%m(%n)", "%m(%n=1)", "%m(a%n b)", "name ", " name", "=%m", "%mend m;", "%macro m;", "* x %m;", "*\n%x;", "\"&a\"", "\"%m\"", "\"a&b.c\"", "\"%let\"", "'&a'", "%do %while(", "%do %until(", "%do;",
+    "%m(a/*c*/=1)", "%eval(a\nb +1)", "a\nb ", "x\n y  *", "first\nsecond %then", "%sysevalf(1.5x\n y  * 2)", "a%*c;b", "%*c;", "%m(%n)", "%m(%n=1)", "%m(a%n b)", "name ", " name", "=%m", "%mend m;", "%macro m;", "* x %m;", "*\n%x;", "\"&a\"", "\"%m\"", "\"a&b.c\"", "\"%let\"", "'&a'", "\"%str()\"", "\"%nrstr()\"d", "\"%str(/*c*/)\"", "\"%str()", "%str()", "%nrstr()", "%do %while(", "%do %until(", "%do;",
 ]
 ALL_FRAGS = OPEN_FRAGS + MACRO_FRAGS * 2
 
@@ -71,12 +75,75 @@ def gen_numeric(rng):
 
 
 def gen_strings(rng):
-    body_frags = ["a", "b c", "''", '""', "'", '"', "%'", '%"', "%%", "%(", "%)", "(", ")", ",", ";", "&a", "&a.", "%m", "%m(x)", "%", "&", "&&", "\n", "é", "€", "/", "/*", "*/", "41", "4", "g", "+1", ",", " ", "=", "x"]
+    body_frags = ["a", "b c", "''", '""', "'", '"', "%'", '%"', "%%", "%(", "%)", "(", ")", ",", ";", "&a", "&a.", "%m", "%m(x)", "%", "&", "&&", "\n", "é", "€", "/", "/*", "*/", "41", "4", "g", "+1", ",", " ", "=", "x",
+                  "%str()", "%nrstr()", "%STR()", "%str(/*c*/)", "%str(a)", "%str( )", "%eval()", "%eval(1)", "%m()", "&a&b", "%let", "%put x;", "%*c;", "/*c*/"]
     body = "".join(rng.choice(body_frags) for _ in range(rng.randint(0, 6)))
     forms = ["'{}'", "'{}'{s}", '"{}"', '"{}"{s}', "%str({})", "%nrstr({})", "%let a=%str({});", "%put %nrstr({});", "%m(%str({}))", "x='{}';", 'x="{}";', "%m(a='{}')", "%eval(\"{}\" eq 'a')",
              "'{}", '"{}', "%str({}", "\"&a{}\"", "\"{}&a\"", "%let q=\"{}\";"]
     f = rng.choice(forms)
     return f.replace("{s}", rng.choice(["b", "d", "dt", "n", "t", "x", "X", "DT", "B"])).replace("{}", body)
+
+
+PROG_STMTS = [
+    "data a; set b; run;", "x = 1;", "y = x + 2.5e3;", "* comment;", "* multi\n line comment;", "* uses %helper(1) internally;", "* abc\n def %x;", "*\n\n%let a=1;",
+    "* it's;", "%* macro comment;", "/* block\n comment */", "%let a = 1;", "%let b = %eval(&a + 1);", "%put &a;", "%put NOTE: done;", "%if &a ¬= 2 %then %put x;", "%if &a ne 2 %then %do; x=1; %end;",
+    "%else %do; %end;", "%let a = %eval(1 ¬= 2);", "%let c = %sysevalf(1.5 * 2);", "put x $я1.;", "put x $char5. y 8.2;", "%let x = %тест(1);", "%let a = %eval(%яя(1) + 2);", "%été(1)",
+    "proc sql; select * from t; quit;", "format x $char5.;", "y = 'it''s';", "z = \"&a..x\";", "t = \"%str()\";", "u = \"a%nrstr(&)b\"d;", "h = '4a,4B'x;", "d = '01jan2020'd;",
+    "%do i = 1 %to 3; %end;", "%do i = 1 %to 10 %by 2; y=&i; %end;", "%do %while(&i < 3); %end;", "%do %until(&i ge 3); %end;", "%m(a, b=2)", "%m(a=%str(;))", "%m()", "%m;",
+    "datalines;\n1 2\n;", "datalines4;\na;b\n;;;;", "cards;\nx\n;", "datalines ;\n1 'a\n;", "cards4 ;\na;b\n;;;;", "lines \n;\n* 1\n;", "%local a b;", "%global g;", "%goto lbl;", "%lbl: x=1;", "%return;", "%include 'f.sas';", "%sysfunc(cats(a, b))",
+    "%let s = %scan(a b c, 2);", "%let s = %substr(abc, 1, 2);", "%let q = %str(a%'b);", "%let n = %nrstr(%m(x));", "%let u = %upcase(abc);", "if a then b = 1; else b = 2;",
+    "a = b ** 2 >< 3 <> 4;", "if x in (1, 2) then;", "where a eq 'x' and b ne .;", "array z{3} z1-z3;", "x = 0ffx; y = 1e5; z = .5;", "%copy m / source;", "%symdel a / nowarn;",
+    "%sysexec ls;", "%let é = 1;", "x = &&a&i;", "x = &a.&b..c;", "call symput('a', '1');", "%macro inner; %mend inner;", "%macro k(a, b=1) / store; %mend;", ";", ";;",
+]
+
+
+def gen_prog(rng):
+    """statement-level programs: realistic statements, optionally wrapped in %macro ... %mend, joined by blanks / line feeds"""
+    def block(depth):
+        n = rng.randint(1, 4)
+        st = [rng.choice(PROG_STMTS) for _ in range(n)]
+        body = rng.choice([" ", "\n", "\n  ", " ", ""]).join(st) if rng.random() < 0.5 else "".join(x + rng.choice([" ", "\n", "\n\n", ""]) for x in st)
+        k = rng.random()
+        if depth < 2 and k < 0.35:
+            name = rng.choice(["m", "mac", "é", "m1"])
+            args = rng.choice(["", "", "(a)", "(a, b=1)", "(a=%str(,))"])
+            return "%macro " + name + args + ";" + rng.choice([" ", "\n", ""]) + block(depth + 1) + rng.choice([" ", "\n", ""]) + "%mend" + rng.choice(["", " " + name]) + ";"
+        if depth < 2 and k < 0.45:
+            return "%if &c %then %do;" + rng.choice([" ", "\n"]) + block(depth + 1) + rng.choice([" ", "\n"]) + "%end;"
+        return body
+    s = rng.choice(["", "", "", "\ufeff"]) + rng.choice([" ", "\n", ""]).join(block(0) for _ in range(rng.randint(1, 3)))
+    if rng.random() < 0.25 and s:
+        s = s[:rng.randrange(len(s) + 1)]       # truncated program
+    return s
+
+
+def gen_hexstr_all():
+    """every single byte as a hex string literal, both digit cases and both quote kinds (a finite table: exhaustive)"""
+    out = []
+    for b in range(256):
+        out.append("'%02x'x" % b)
+        out.append('"%02X"X' % b)
+    # every byte once more inside a multi-pair literal with commas
+    for hi in range(16):
+        out.append("'" + ",".join("%02x%02X" % (hi * 16 + lo, 255 - (hi * 16 + lo)) for lo in range(16)) + "'x")
+    return out
+
+
+def gen_hexstr(rng):
+    hexd = "0123456789abcdefABCDEF"
+    n = rng.choice([0, 1, 1, 2, 2, 3, 4, 8])
+    parts = []
+    for _ in range(n):
+        parts.append("".join(rng.choice(hexd) for _ in range(2 * rng.randint(1, 3))))
+    body = rng.choice([",", ",", "", " "]).join(parts)
+    k = rng.random()
+    if k < 0.15 and body:
+        i = rng.randrange(len(body) + 1)
+        body = body[:i] + rng.choice(["g", " ", ",", "0", "é", "''", "+", "x"]) + body[i:]
+    q = rng.choice("'\"")
+    ctx = rng.choice(["{}", "x={};", "{} {}", "%let a={};", "%m({})", "%eval({} eq {})", "%put {};", "a{}", "\"&v\"{}"])
+    lit = lambda: q + body + q + rng.choice(["x", "X"])
+    return ctx.format(*(lit() for _ in range(ctx.count("{}"))))
 
 
 def main():
@@ -112,6 +179,29 @@ def main():
             s = soup(rng, ALL_FRAGS, a.maxfrags)
             for i in range(len(s) + 1):
                 put(s[:i]); k += 1
+    elif a.stream == "progs":
+        for _ in range(a.n):
+            put(gen_prog(rng))
+    elif a.stream == "hexstr":
+        for x in gen_hexstr_all():
+            put(x)
+        for _ in range(a.n):
+            put(gen_hexstr(rng))
+    elif a.stream == "uws":
+        # blanks replaced by non-ASCII / unusual whitespace (every place where the lexer skips or looks ahead over whitespace)
+        WS = ["\u00a0", "\u0085", "\u3000", "\u2003", "\x0b", "\x0c", "\u2028", "\u1680", "\t", "\r"]
+        for _ in range(a.n):
+            base = rng.choice([gen_prog(rng), gen_prog(rng), soup(rng, ALL_FRAGS, a.maxfrags), soup(rng, OPEN_FRAGS, a.maxfrags)])
+            cs = list(base)
+            idx = [i for i, ch in enumerate(cs) if ch == " "]
+            if not idx:
+                idx = [rng.randrange(len(cs) + 1)] if cs else []
+                for i in idx:
+                    cs.insert(i, rng.choice(WS))
+            else:
+                for i in rng.sample(idx, min(len(idx), rng.randint(1, 3))):
+                    cs[i] = rng.choice(WS)
+            put("".join(cs))
     elif a.stream in ("nl", "mb"):
         # mutate programs: line feeds / multi-byte characters at random positions of soup, grammar-ish and string inputs
         ins = ["\n"] if a.stream == "nl" else ["é", "日", "𝒳", "\u00a0", "ü"]
